@@ -40,6 +40,12 @@ var c04Carriers = []carrier{
 	{"hidden+style", "A", func(s string) string { return "<span style=\"color:red\" hidden>" + s + "</span>" }},
 	{"aria+style", "A", func(s string) string { return "<span style=\"color:red\" aria-hidden=\"true\">" + s + "</span>" }},
 	{"p-hidden+style", "A", func(s string) string { return "<p style=\"color:red\" hidden>" + s + "</p>" }},
+	{"hidden-figcaption", "A", func(s string) string { return "<div hidden><figcaption>" + s + "</figcaption></div>" }},
+	{"hidden-with-link", "A", func(s string) string {
+		return "<span style=\"display:none\">" + s + " <a href=\"http://example.com/l/x\">" + s + "b</a></span>"
+	}},
+	{"font-hidden", "A", func(s string) string { return "<font hidden>" + s + "</font>" }},
+	{"font-dn", "A", func(s string) string { return "<font color=\"red\" style=\"display:none\">" + s + "</font>" }},
 	{"form", "B", func(s string) string { return "<form action=\"/x\">" + s + "</form>" }},
 	{"input", "B", func(s string) string { return "<input type=\"text\" value=\"" + s + "\">" }},
 	{"button", "B", func(s string) string { return "<button>" + s + "</button>" }},
@@ -58,7 +64,7 @@ var c04Carriers = []carrier{
 	{"obs-dn-css-comment", "O", spanStyle("display:/*x*/none")},
 }
 
-var c04Slots = []string{"top", "between", "inpara", "li", "tdl", "tdd", "cap", "capl", "fig", "tw", "head"}
+var c04Slots = []string{"top", "between", "inpara", "li", "tdl", "tdd", "cap", "capl", "fig", "tw", "head", "capo", "pic", "vid"}
 
 // c04Doc renders the fixed host skeleton with the given carriers placed in slots.
 func c04Doc(place [][2]int) string {
@@ -87,6 +93,13 @@ func c04Doc(place [][2]int) string {
 	sb.WriteString("<figure>" + img() + "<figcaption>" + t.W(3) + " <a href=\"http://example.com/l/" + t.U() + "\">" + t.W(2) + "</a>" + fill["capl"] + "</figcaption></figure>")
 	sb.WriteString(pc())
 	sb.WriteString("<figure>" + img() + fill["fig"] + "<figcaption>" + t.W(4) + "</figcaption></figure>")
+	sb.WriteString(pc())
+	// a figure whose caption holds nothing but the carriers, a picture and a video with carriers inside
+	sb.WriteString("<figure>" + img() + "<figcaption>" + strings.TrimSpace(fill["capo"]) + "</figcaption></figure>")
+	sb.WriteString(pc())
+	sb.WriteString("<picture>" + strings.TrimSpace(fill["pic"]) + "<source srcset=\"http://example.com/img/" + t.U() + ".webp 1x\">" + img() + "</picture>")
+	sb.WriteString(pc())
+	sb.WriteString("<video src=\"http://example.com/v/" + t.U() + ".mp4\" width=\"400\" height=\"300\">" + strings.TrimSpace(fill["vid"]) + "</video>")
 	sb.WriteString(pc())
 	sb.WriteString("<blockquote class=\"twitter-tweet\"><p>" + t.W(6) + fill["tw"] + "</p><a href=\"https://twitter.com/someone/status/1234567\">" + t.W(2) + "</a></blockquote>")
 	sb.WriteString(pc())
@@ -347,8 +360,8 @@ func init() {
 	eng.Register(&eng.Prop{
 		ID:        "C04",
 		DesignRef: "§5 C04",
-		Rule: "fixed host skeleton (article with paragraph, list, layout table, data table, three figures, twitter embed) with 11 slots {top, between paragraphs, inside paragraph, li, layout cell, data cell, caption, caption with link, directly in figure, twitter embed, head}; " +
-			"every multiset of <= 2 (quick) / <= 3 (thorough) (carrier, slot) placements over 33 carriers (17 hidden/non-rendered incl. hidden elements that also carry a style shared with a visible control, 10 non-reading, 4 visible controls, 2 observe-only CSS spellings), each holding a unique secret token. " +
+		Rule: "fixed host skeleton (article with paragraph, list, layout table, data table, three figures, twitter embed) with 14 slots {top, between paragraphs, inside paragraph, li, layout cell, data cell, caption, caption with link, directly in figure, twitter embed, head, a caption holding only the carriers, inside picture, inside video}; " +
+			"every multiset of <= 2 (quick) / <= 3 (thorough) (carrier, slot) placements over 37 carriers (21 hidden/non-rendered incl. hidden elements that also carry a style shared with a visible control, 10 non-reading, 4 visible controls, 2 observe-only CSS spellings), each holding a unique secret token. " +
 			"Oracle: secrets whose holder (judged on the parsed tree) is script/style/head/comment/hidden never occur in Text nor in result.Node outside embed placeholders; secrets in form controls/noscript/svg/object/applet/unrecognised iframe never occur unless nested in a retained data table or figure. Non-trivial = >= 1 secret and >= 100 words retained.",
 		Enumerate: c04Enumerate,
 		Check:     c04Check,
